@@ -43,6 +43,9 @@ type Options struct {
 	Audit  map[string]audit.Factory
 	Extra  map[string]logical.Factory
 	ExtraCred map[string]logical.Factory
+	// XNSIdentity: unsafe_cross_namespace_identity (entities and groups may be
+	// referenced across namespaces, as in Vault Enterprise)
+	XNSIdentity bool
 }
 
 type Queued struct {
@@ -110,6 +113,8 @@ func coreConfig(phys physical.Backend, opt Options, rec *RecState) *vault.CoreCo
 		Logger:             log.NewNullLogger(),
 		RollbackPeriod:     24 * time.Hour,
 		EnableRaw:          true,
+
+		UnsafeCrossNamespaceIdentity: opt.XNSIdentity,
 	}
 }
 
